@@ -4,7 +4,7 @@ Reference MQTT 3.1.1 wire format, written from the OASIS specification
 executable, and independent of `Mqtt.Generated.Facts`.
 
 * `Packet`          the fourteen control packets as field records
-* `encode`          the wire encoding of a packet
+* `encode`          the wire encoding of a packet (`Encodes`: the same with any permitted remaining-length form)
 * `wf` / `WF`       well-formedness (decidable)
 * `decode`          reference decoder: `decode t bs = some (p, n)` iff the first `n`
                     bytes of `bs` are exactly `encode p` for a well-formed `p` of type `t`
@@ -194,6 +194,15 @@ def getVarint : Nat → Bytes → Option (Nat × Bytes)
     else match getVarint fuel r with
       | some (v, r') => some (b.toNat % 128 + 128 * v, r')
       | none => none
+
+/-- the bytes of a packet with the remaining length written as `v` (`encode p = encodeV (varint |body|) p`) -/
+def encodeV (v : Bytes) (p : Packet) : Bytes := UInt8.ofNat (p.type * 16 + p.flags) :: (v ++ p.body)
+
+/-- `bs` is *an* MQTT 3.1.1 encoding of `p`: like `encode p`, with the remaining length written in any of the
+one- to four-byte forms that the decoding algorithm of section 2.2.3 reads back as the length of the body
+(the specification does not require the shortest form; `encode` produces it) -/
+def Encodes (bs : Bytes) (p : Packet) : Prop :=
+  ∃ v, getVarint 4 v = some (p.body.length, []) ∧ bs = encodeV v p
 
 def getFilters : Nat → Bytes → Option (List (Bytes × UInt8))
   | _, [] => some []
